@@ -166,6 +166,13 @@ class TaskRec:
         return self.req.probe or (self.inv is not None and self.inv.probe)
 
     @property
+    def unstepped(self):
+        """Created, and its task has not taken a single step yet - the trigger of the recorded finding F-EARLY.  (On the
+        unchanged code a task whose worker has not started has never stepped: the first step runs the worker's first
+        statement.  A change that lets a task step without starting its worker is a different situation.)"""
+        return self.state == "U" and getattr(self.task, "_sim_steps", 0) == 0
+
+    @property
     def name(self):
         if self._name is None:
             self._name = self.task.get_name()
@@ -1531,7 +1538,7 @@ class Sim:
                     targets.append(t)
             else:
                 bad_classes |= cls
-        if "F-EARLY" in self.steer and any(t.state == "U" for t in targets):
+        if "F-EARLY" in self.steer and any(t.unstepped for t in targets):
             return self._steer("F-EARLY")
         if self._self_cancel_grey(ctx, targets) and not self._void_self_cancel(ctx):
             return False
@@ -1561,7 +1568,7 @@ class Sim:
                 continue          # (its own request comes too late to be delivered: the coroutine returns first)
             t.pend_cancel += 1
             t.pend_prop = "C06"
-            if t.state == "U":
+            if t.unstepped:
                 t.early = True
                 self.stats["fault:cancel_before_first_step"] += 1
         if len(ids) != len(set(ids)):
@@ -1588,7 +1595,7 @@ class Sim:
             if ctx is not None and ctx[0] in ("it", "fa") and ctx[1] is req and not self.run.get("own_iter_cancel"):
                 return False
             targets = self._group_targets(req)
-            if "F-EARLY" in self.steer and any(t.state == "U" for t in targets):
+            if "F-EARLY" in self.steer and any(t.unstepped for t in targets):
                 return self._steer("F-EARLY")
             if self._self_cancel_grey(ctx, targets) and not self._void_self_cancel(ctx):
                 return False
@@ -1647,7 +1654,7 @@ class Sim:
                 continue          # (its own request comes too late to be delivered: the coroutine returns first)
             t.pend_cancel += 1
             t.pend_prop = prop
-            if t.state == "U":
+            if t.unstepped:
                 t.early = True
                 self.stats["fault:cancel_before_first_step"] += 1
 
@@ -1658,7 +1665,7 @@ class Sim:
         if ctx is not None and ctx[0] in ("it", "fa") and not self.run.get("own_iter_cancel"):
             return False
         targets = [t for r in pc.live_names.values() for t in self._group_targets(r)]
-        if "F-EARLY" in self.steer and any(t.state == "U" for t in targets):
+        if "F-EARLY" in self.steer and any(t.unstepped for t in targets):
             return self._steer("F-EARLY")
         if self._self_cancel_grey(ctx, targets) and not self._void_self_cancel(ctx):
             return False
@@ -1682,7 +1689,7 @@ class Sim:
             exp = running
         else:
             exp = running[:max(0, n)]
-        if "F-EARLY" in self.steer and any(t.state == "U" for t in exp):
+        if "F-EARLY" in self.steer and any(t.unstepped for t in exp):
             return self._steer("F-EARLY")
         if self._self_cancel_grey(ctx, exp) and not self._void_self_cancel(ctx):
             return False
@@ -1707,7 +1714,7 @@ class Sim:
                 continue          # (its own request comes too late to be delivered: the coroutine returns first)
             t.pend_cancel += 1
             t.pend_prop = "C14"
-            if t.state == "U":
+            if t.unstepped:
                 t.early = True
                 self.stats["fault:cancel_before_first_step"] += 1
         return True
